@@ -136,6 +136,7 @@ func c03Routing(c *lib.Ctx, idx uint64) {
 		RedefSimilar:  30,
 		Monster:       3,
 		RepeatPrev:    12,
+		ReservedBits:  6,
 		// message_index, start_time and timestamp together on the messages that have them:
 		// consecutive messages may then agree in everything but the timestamp
 		ForceFields: func(r *lib.Rand, g uint16) []byte {
